@@ -10,4 +10,4 @@ assert old in s, "pattern not found: "+old
 open('/tmp/mutwork/'+f,'w').write(s.replace(old,new,1))
 PY
 echo "== $name"
-for p in "$@"; do /verif/bin/cachelint -verif /tmp/mutwork -prop $p -overlay /repo/$f=/tmp/mutwork/$f | grep -E 'violated|BROKEN|UNDECIDED|quick:' | grep -v "KNOWN" | cut -c1-240 | head -5; done
+for p in "$@"; do ${CL:-/verif/bin/cachelint} -verif /tmp/mutwork -prop $p -overlay /repo/$f=/tmp/mutwork/$f | grep -E 'violated|BROKEN|UNDECIDED|quick:' | grep -v "KNOWN" | cut -c1-240 | head -5; done
